@@ -119,6 +119,8 @@ std::string pos_cmd(const gen::Game& g, size_t n)
     return s;
 }
 
+bool g_wild = false;  // synthetic start position (ten queens a side ...): every depth-limited go carries a node budget
+
 std::string random_go(const Board& b, int& depth_limit, std::vector<orc::Move>& sm, int& stop_ms, int maxdepth)
 {
     depth_limit = 0;
@@ -131,7 +133,7 @@ std::string random_go(const Board& b, int& depth_limit, std::vector<orc::Move>& 
         depth_limit = 1 + RNG->below(maxdepth);
         // plain depth limits stay shallow; deeper ones carry a node budget so that a session on a wild position
         // (ten queens a side) cannot outlast the driver's patience under a sanitizer
-        return "go depth " + std::to_string(depth_limit) + (depth_limit > 2 ? " nodes 300000" : "");
+        return "go depth " + std::to_string(depth_limit) + ((depth_limit > 2 || g_wild) ? " nodes 300000" : "");
     case 2:
     {
         static const int NN[] = {1, 10, 500, 5000, 30000};
@@ -160,9 +162,11 @@ std::string random_go(const Board& b, int& depth_limit, std::vector<orc::Move>& 
         for (size_t i = legal.size(); i > 1; --i) std::swap(legal[i - 1], legal[RNG->below(uint32_t(i))]);
         if (legal.size() > n) legal.resize(n);
         sm = legal;
-        std::string s = "go depth " + std::to_string(depth_limit) + (depth_limit > 2 ? " nodes 300000" : "") + " searchmoves";
-        for (const orc::Move& m : sm) s += " " + m.uci();
-        return s;
+        // the UCI protocol fixes no order of the go arguments: searchmoves first or last
+        std::string lim = "depth " + std::to_string(depth_limit) + ((depth_limit > 2 || g_wild) ? " nodes 300000" : "");
+        std::string list = "searchmoves";
+        for (const orc::Move& m : sm) list += " " + m.uci();
+        return RNG->below(2) ? "go " + lim + " " + list : "go " + list + " " + lim;
     }
     case 6:
         stop_ms = int(RNG->below(4) == 0 ? 0 : RNG->below(120));
@@ -175,7 +179,7 @@ std::string random_go(const Board& b, int& depth_limit, std::vector<orc::Move>& 
     {
         // a depth limit together with a clock or movetime (all limits must hold together)
         depth_limit = 1 + RNG->below(maxdepth);
-        std::string s = "go depth " + std::to_string(depth_limit) + (depth_limit > 2 ? " nodes 300000" : "");
+        std::string s = "go depth " + std::to_string(depth_limit) + ((depth_limit > 2 || g_wild) ? " nodes 300000" : "");
         if (RNG->below(2))
             s += " wtime " + std::to_string(RNG->below(2) ? 30000 : 600) + " btime " + std::to_string(RNG->below(2) ? 30000 : 600) + (RNG->below(2) ? " winc 1000 binc 1000" : "");
         else
@@ -268,7 +272,10 @@ Session make(const std::string& kind, long idx)
             if (RNG->below(5) == 0) s.send("setoption name Polyglot Sample value " + std::string(RNG->below(2) ? "best" : "random"));
             if (RNG->below(6) == 0) s.send("setoption name Logfile value");
             s.sync();
-            Board start = RNG->below(3) ? Board::startpos() : (RNG->below(2) ? Board::fen(gen::CORPUS[RNG->below(gen::CORPUS_N)]) : gen::synth(*RNG, int(RNG->below(gen::T_COUNT))));
+            int pick = int(RNG->below(6));
+            g_wild = pick == 5;
+            Board start = pick < 4 ? Board::startpos() : (pick == 4 ? Board::fen(gen::CORPUS[RNG->below(gen::CORPUS_N)]) : gen::synth(*RNG, int(RNG->below(gen::T_COUNT))));
+            if (start.count(orc::WQ) + start.count(orc::BQ) > 3) g_wild = true;
             gen::Policy pol;
             gen::Game g = gen::random_game(*RNG, start, 12 + int(RNG->below(50)), pol, "session");
             size_t step = 1 + RNG->below(6);
@@ -386,7 +393,10 @@ Session make(const std::string& kind, long idx)
         bool depth_first = idx % 2;
         std::string list;
         for (const orc::Move& m : sm) list += " " + m.uci();
-        s.go(depth_first ? "go depth " + std::to_string(d) + " searchmoves" + list : "go searchmoves" + list, -1, b, depth_first ? d : 0, sm);
+        int form = int(idx % 3);  // limit first / list only / list first then the limit
+        s.go(form == 0 ? "go depth " + std::to_string(d) + " searchmoves" + list : form == 1 ? "go searchmoves" + list : "go searchmoves" + list + " depth " + std::to_string(d), -1, b,
+             form == 1 ? 0 : d, sm);
+        (void)depth_first;
     }
     else if (kind == "book")
     {
